@@ -405,6 +405,72 @@ def gen_recipe(rng, t, pal) -> dict:
     return rec
 
 
+LABELS = ["Adverse Event Leading To Withdrawal", "Any Treatment Emergent AE", "Patients With At Least One Event",
+          "Total Across All Visits And Periods", "Placebo", "Drug A 10 mg", "Laboratory Value Above Upper Limit",
+          "Week 12 Last Observation Carried Forward"]
+
+
+def gen_boundary_recipe(rng, t, pal) -> dict:
+    """A paginating table whose widest label measures within a hair of its column width once the page
+    width has been calibrated (see calibrate_worker): any perturbation of string-width measurement -
+    a cache, another rounding, kerning applied or not - flips line counts and moves page breaks."""
+    nrows = rng.choice([14, 18, 24])
+    ncols = rng.choice([2, 3])
+    labels = rng.sample(LABELS, 4)
+    cols = [["c0", "str", [rng.choice(labels) for _ in range(nrows)]]]
+    for j in range(1, ncols):
+        cols.append([f"c{j}", "str", [str(rng.randrange(0, 500)) for _ in range(nrows)]])
+    rel = [rng.choice([3, 4, 5])] + [1] * (ncols - 1)
+    rec = {"kind": "single", "dfs": [{"cols": cols}], "bodies": [{"col_rel_width": rel}],
+           "page": {"nrow": rng.choice([6, 8, 10]), "orientation": rng.choice(["portrait", "landscape"])},
+           "title": dict(rng.choice(pal["title"])) if rng.random() < 0.5 else None, "subline": None,
+           "page_header": None, "page_footer": None,
+           "footnote": dict(rng.choice(pal["footnote"])) if t["footnote"] and rng.random() < 0.5 else None,
+           "source": None, "headers": "default",
+           "calib": {"col": 0, "ratio": 1.0 + rng.choice([-1, -1, 1]) * rng.choice([1e-4, 3e-4, 1e-3])}}
+    return rec
+
+
+def calibrate_worker(arg) -> dict:
+    """Pristine child: the page width that puts the widest text of the chosen column at
+    `ratio` x its column width, measured with the library's own public get_string_width
+    (Times, 9 pt - what pagination uses)."""
+    from . import boot
+
+    boot.bootstrap()
+    import rtflite
+
+    rec = arg["recipe"]
+    c = rec["calib"]
+    col = rec["dfs"][0]["cols"][c["col"]]
+    rel = rec["bodies"][0]["col_rel_width"]
+    widest = max(rtflite.get_string_width(str(v), font=1, font_size=9) for v in col[2])
+    share = rel[c["col"]] / sum(rel)
+    return {"col_width": widest / (c["ratio"] * share), "widest_in": widest}
+
+
+def resolve_calibration(recipes: list, cache: dict) -> int:
+    """Replace every 'calib' request by a concrete page.col_width (in place). Returns how many were resolved."""
+    from . import core
+
+    n = 0
+    for rec in recipes:
+        c = rec.get("calib")
+        if not c:
+            continue
+        try:
+            key = cjson([rec["dfs"][0]["cols"][c["col"]], rec["bodies"][0]["col_rel_width"], c])
+            if key not in cache:
+                cache[key] = core.run_in_child(calibrate_worker, {"recipe": rec})["col_width"]
+        except (core.HarnessError, KeyError, IndexError, TypeError):
+            rec.pop("calib")  # a derived (e.g. deliberately invalid) recipe that cannot be calibrated: leave as is
+            continue
+        rec["page"] = dict(rec.get("page") or {}, col_width=cache[key])
+        rec["calibrated"] = rec.pop("calib")
+        n += 1
+    return n
+
+
 def recipe_hash(recipe: dict) -> str:
     return digest(recipe)
 
